@@ -28,7 +28,12 @@ REPLAYS = VERIF / "replays"
 EVIDENCE = VERIF / "evidence"
 CORPUS = VERIF / "corpus"
 KNOWN = VERIF / "known_findings.json"
-REPO = Path(os.environ.get("VERIF_REPO", "/repo"))
+REPO = Path(os.environ.get("VERIF_REPO", "/repo")).resolve()
+ALT = REPO != Path("/repo")          # running against a scratch worktree (seeded change / candidate fix)
+ALT_TAG = ("_alt_" + hashlib.sha1(str(REPO).encode()).hexdigest()[:8]) if ALT else ""
+if ALT:                              # keep every output of such a run away from the registered ones
+    REPLAYS = BUILD / ("replays" + ALT_TAG)
+    EVIDENCE = BUILD / ("evidence" + ALT_TAG)
 NPROC = int(os.environ.get("VERIF_JOBS", "16"))
 
 FORBIDDEN = re.compile(
@@ -299,7 +304,7 @@ def check_props(pid: str):
 def run_coq_cases(pid: str, preamble: str, terms: list[tuple[int, str]], shard=250, tag="cases", timeout=900):
     """terms: (case id, Coq term of type bool — true iff model and implementation agree).
     Writes build/<pid>/<tag>_k.v, runs coqc in parallel, returns (failing ids, errors)."""
-    d = BUILD / pid
+    d = BUILD / (pid + ALT_TAG)
     d.mkdir(parents=True, exist_ok=True)
     for old in d.glob(f"{tag}_*.v"):
         old.unlink()
@@ -341,7 +346,7 @@ def run_coq_cases(pid: str, preamble: str, terms: list[tuple[int, str]], shard=2
 
 def eval_coq(pid: str, preamble: str, exprs: list[str], tag="eval", timeout=600) -> list[str]:
     """Evaluate expressions with vm_compute; returns the printed values (whitespace-normalised)."""
-    d = BUILD / pid
+    d = BUILD / (pid + ALT_TAG)
     d.mkdir(parents=True, exist_ok=True)
     fn = d / f"{tag}.v"
     body = [preamble]
@@ -459,12 +464,14 @@ def run_check(driver: Driver, argv=None):
     args = ap.parse_args(argv)
     pid = driver.pid
     t0 = time.time()
+    import agilerl  # the implementation under test must be the tree the check was pointed at
+    assert Path(agilerl.__file__).resolve().is_relative_to(REPO), (agilerl.__file__, REPO)
     rng = random.Random(f"{pid}-{args.seed}")
     findings, _fixed = load_known()
     violations: list[Violation] = []
     notes = []
     ev_path = EVIDENCE / f"{pid}.json"
-    EVIDENCE.mkdir(exist_ok=True)
+    EVIDENCE.mkdir(exist_ok=True, parents=True)
     if ev_path.exists() and not args.replay:
         ev_path.unlink()
 
